@@ -659,6 +659,13 @@ func init() {
 		for _, f := range c02DirectedOther() {
 			addInput(f[0].(string), f[1].(string), f[2].(string), f[3].([]byte))
 		}
+		chaos := 40
+		if thorough {
+			chaos = 400
+		}
+		for _, f := range c02SpanChaos(rng, chaos) {
+			addInput(f[0].(string), f[1].(string), f[2].(string), f[3].([]byte))
+		}
 		results := c02RunJobs(jobs, 12, 15*time.Second)
 		// the property on the implementation
 		outcomes := map[string]int{}
@@ -990,6 +997,68 @@ func c02DirectedOther() [][4]interface{} {
 		"table-wide-and-short": "<table><tr>" + strings.Repeat("<td>x</td>", 20000) + "</tr><tr><td>y</td></tr></table>",
 	} {
 		add("html", "directed:"+name, ".html", []byte("<html><body>"+body+"</body></html>"))
+	}
+	return out
+}
+
+// tables whose span attributes do not fit together: cells spanning past the grid, covered cells missing or in excess
+func c02SpanChaos(rng *RNG, n int) [][4]interface{} {
+	var out [][4]interface{}
+	spans := []int{1, 1, 1, 2, 2, 3, 5, 9, 16383, 16384, 16385, 100000}
+	pick := func() int { return spans[rng.Intn(len(spans))] }
+	odtHead := `<?xml version="1.0" encoding="UTF-8"?><office:document-content xmlns:office="urn:oasis:names:tc:opendocument:xmlns:office:1.0" xmlns:text="urn:oasis:names:tc:opendocument:xmlns:text:1.0" xmlns:table="urn:oasis:names:tc:opendocument:xmlns:table:1.0" office:version="1.2"><office:body><office:text>`
+	odtTail := `</office:text></office:body></office:document-content>`
+	docHead := `<?xml version="1.0" encoding="UTF-8" standalone="yes"?><w:document xmlns:w="http://schemas.openxmlformats.org/wordprocessingml/2006/main"><w:body>`
+	docTail := `</w:body></w:document>`
+	replace := func(ms []zipMember, name, data string) []zipMember {
+		c := make([]zipMember, len(ms))
+		copy(c, ms)
+		for i := range c {
+			if c[i].Name == name {
+				c[i].Data = []byte(data)
+			}
+		}
+		return c
+	}
+	for k := 0; k < n; k++ {
+		rows := rng.Range(1, 5)
+		var odt, docx, html strings.Builder
+		odt.WriteString(`<table:table table:name="T">`)
+		if rng.Bool() {
+			fmt.Fprintf(&odt, `<table:table-column table:number-columns-repeated="%d"/>`, rng.Range(1, 4))
+		}
+		docx.WriteString(`<w:tbl>`)
+		html.WriteString(`<table>`)
+		for r := 0; r < rows; r++ {
+			odt.WriteString(`<table:table-row>`)
+			docx.WriteString(`<w:tr>`)
+			html.WriteString(`<tr>`)
+			for c := rng.Range(0, 4); c > 0; c-- {
+				cs, rs := pick(), pick()
+				if rng.Chance(1, 2) {
+					rs = rng.Range(1, 3)
+				}
+				if rng.Chance(1, 2) {
+					cs = rng.Range(1, 3)
+				}
+				if rng.Chance(1, 6) {
+					odt.WriteString(`<table:covered-table-cell/>`)
+				}
+				fmt.Fprintf(&odt, `<table:table-cell table:number-columns-spanned="%d" table:number-rows-spanned="%d"><text:p>c%d</text:p></table:table-cell>`, cs, rs, c)
+				vm := []string{"", `<w:vMerge/>`, `<w:vMerge w:val="restart"/>`}[rng.Intn(3)]
+				fmt.Fprintf(&docx, `<w:tc><w:tcPr><w:gridSpan w:val="%d"/>%s</w:tcPr><w:p><w:r><w:t>c%d</w:t></w:r></w:p></w:tc>`, cs, vm, c)
+				fmt.Fprintf(&html, `<td colspan="%d" rowspan="%d">c%d</td>`, cs, rs, c)
+			}
+			odt.WriteString(`</table:table-row>`)
+			docx.WriteString(`</w:tr>`)
+			html.WriteString(`</tr>`)
+		}
+		odt.WriteString(`</table:table>`)
+		docx.WriteString(`</w:tbl>`)
+		html.WriteString(`</table>`)
+		out = append(out, [4]interface{}{"odt", "span-chaos", ".odt", writeZip(replace(mkODTSimple([]string{"x"}), "content.xml", odtHead+odt.String()+odtTail))})
+		out = append(out, [4]interface{}{"docx", "span-chaos", ".docx", writeZip(replace(mkDOCXSimple([]string{"x"}), "word/document.xml", docHead+docx.String()+docTail))})
+		out = append(out, [4]interface{}{"html", "span-chaos", ".html", []byte("<html><body>" + html.String() + "</body></html>")})
 	}
 	return out
 }
